@@ -1,9 +1,10 @@
 import TracklibVerif.Lemmas.Geo
 import TracklibVerif.Lemmas.GeoTrack
 import TracklibVerif.Lemmas.GeoLambert
+import TracklibVerif.Lemmas.GeoLambertConv
 /-! # C14 — coordinate conversions round-trip and agree with the WGS84 ellipsoid
 
-Property theorems only (helpers: `Lemmas/Geo.lean`, `Lemmas/GeoTrack.lean`, `Lemmas/GeoLambert.lean`). They are about the
+Property theorems only (helpers: `Lemmas/Geo.lean`, `Lemmas/GeoTrack.lean`, `Lemmas/GeoLambert.lean`, `Lemmas/GeoLambertConv.lean`). They are about the
 model `Model/Geo.lean` (the operations of `tracklib/core/obs_coords.py` and of `Track.to*Coords`, in the same order),
 instantiated at `ℝ` with Mathlib's functions: `realTrig` = `Real.sin, Real.cos, Real.tan, Real.arctan, Real.sqrt, Real.log,
 Real.exp`, `pow = Real.rpow`, `atan2 y x = Complex.arg (x + i y)`, `pi = Real.pi`. Angles of `V3` values are in degrees,
@@ -11,7 +12,7 @@ as in the Python. Everything about the local frame holds for *any* `Trig ℝ` wh
 (`Pyth T`), and is stated that way. IEEE rounding is outside these statements (sampled by the transfer check).
 
 What has no exact identity and is therefore not a theorem: `ECEFCoords.toGeoCoords` for `h ≠ 0` (Bowring's one-step formula
-is an approximation, about 1.3 µm at 10 km) and the convergence of the 10 Lambert passes; see the `_partial` theorems. -/
+is an approximation, about 1.3 µm at 10 km); see the `_partial` theorems. -/
 namespace TV.C14
 open TV.Geo Real
 
@@ -142,22 +143,33 @@ theorem track_round_trip (T : Trig ℝ) (hT : Pyth T) (t : Track ℝ) (hne : t.p
    fun hk => track_geo_enu_geo T hT t hk hne b _ (Or.inl rfl),
    fun hk => track_geo_enu_geo T hT t hk hne (.geo c) none (Or.inr ⟨rfl, c, rfl⟩)⟩
 
-/-- T10 (partial) Lambert-93, `_projToLambert93` followed by `__projFromLambert93`:
-* the longitude comes back exactly (for longitudes in (−90°, 90°), any latitude);
+/-- T10 Lambert-93, structure of `_projToLambert93` followed by `__projFromLambert93`:
+* the longitude comes back exactly (for longitudes in (−90°, 90°), any latitude), the third coordinate is untouched;
 * the inverse recovers the isometric latitude `L` of the input exactly, so that the latitude it returns is the 10-fold
   iterate of the loop body for that `L`, started at `2 atan(exp L) − π/2`;
-* the original latitude is a fixed point of that loop body (for |φ| < 90°), hence of any number of passes.
-MISSING: that 10 passes from that start end within 1e-9° of the fixed point (contraction factor ≈ e² ≈ 0.0067 per pass;
-needs verified bounds on a derivative of transcendental functions): rests on the correspondence and transfer checks. -/
-theorem lambert_round_trip_partial (g : V3 ℝ) :
+* the original latitude is a fixed point of that loop body (for |φ| < 90°), hence of any number of passes;
+* the loop body is a contraction with factor `E²/(1 − E²) ≤ 0.007`, for every `L`. -/
+theorem lambert_loop_structure (g : V3 ℝ) :
     (-90 < g.x → g.x < 90 → (fromLambert93 realTrig (toLambert93 realTrig g)).x = g.x)
     ∧ (fromLambert93 realTrig (toLambert93 realTrig g)).y =
         iter (lambStep realTrig (lambLatIso (g.y * π / 180))) 10
           (2 * Real.arctan (Real.exp (lambLatIso (g.y * π / 180))) - π / 2) * 180 / π
     ∧ (fromLambert93 realTrig (toLambert93 realTrig g)).z = g.z
-    ∧ (-90 < g.y → g.y < 90 → ∀ k, iter (lambStep realTrig (lambLatIso (g.y * π / 180))) k (g.y * π / 180) = g.y * π / 180) :=
+    ∧ (-90 < g.y → g.y < 90 → ∀ k, iter (lambStep realTrig (lambLatIso (g.y * π / 180))) k (g.y * π / 180) = g.y * π / 180)
+    ∧ (∀ L x y, |lambStep realTrig L y - lambStep realTrig L x| ≤ lambK * |y - x|) ∧ lambK ≤ 7 / 1000 :=
   ⟨lambert_lon' g, lambert_lat_loop' g, rfl,
-   fun h1 h2 k => lambert_iter_fixed' _ (by nlinarith [Real.pi_pos]) (by nlinarith [Real.pi_pos]) k⟩
+   fun h1 h2 k => lambert_iter_fixed' _ (by nlinarith [Real.pi_pos]) (by nlinarith [Real.pi_pos]) k,
+   lambStep_contraction, lambK_le⟩
+
+/-- T11 Lambert-93 round trip (over ℝ): for longitudes and latitudes in (−90°, 90°) — France is inside — forward then
+inverse returns the longitude and the third coordinate exactly and the latitude within `(E²/(1−E²))¹¹ · |lat|`, which is
+below 1e-20 degree: the 10 passes of the fixed-point loop converge. -/
+theorem lambert_round_trip (g : V3 ℝ) (hx1 : -90 < g.x) (hx2 : g.x < 90) (hy1 : -90 < g.y) (hy2 : g.y < 90) :
+    (fromLambert93 realTrig (toLambert93 realTrig g)).x = g.x
+    ∧ |(fromLambert93 realTrig (toLambert93 realTrig g)).y - g.y| ≤ lambK ^ 11 * |g.y|
+    ∧ |(fromLambert93 realTrig (toLambert93 realTrig g)).y - g.y| ≤ 1 / 10 ^ 20
+    ∧ (fromLambert93 realTrig (toLambert93 realTrig g)).z = g.z :=
+  ⟨lambert_lon' g hx1 hx2, lambert_lat_converges' g hy1 hy2, lambert_lat_bound' g hy1 hy2, rfl⟩
 
 /-! ### the hypotheses are satisfiable by ordinary inputs -/
 
@@ -177,5 +189,9 @@ example : ((⟨.ecef, [⟨4201000, 168000, 4780000⟩, ⟨4201010, 168020, 47800
     = .ok ⟨.ecef, [⟨4201000, 168000, 4780000⟩, ⟨4201010, 168020, 4780005⟩],
         some (.pt (.geo (ecefToGeo realTrig ⟨4201000, 168000, 4780000⟩)))⟩ :=
   (track_round_trip realTrig pyth_realTrig _ (by simp) (.ecef ⟨4201000, 168000, 4780000⟩) ⟨0, 0, 0⟩).1 rfl
+
+/-- a point of the Lambert-93 domain satisfies the hypotheses of T11 -/
+example : (fromLambert93 realTrig (toLambert93 realTrig ⟨2.35, 48.853, 35⟩)).x = 2.35 :=
+  (lambert_round_trip _ (by norm_num) (by norm_num) (by norm_num) (by norm_num)).1
 
 end TV.C14
